@@ -26,7 +26,7 @@ type c17Case struct {
 func init() {
 	Register(Meta{
 		ID: "C17", Level: "exploration",
-		Rule: "deviation-bounded: 6 seed (profile, data) pairs; bound 1 = every single structured mutation of the profile YAML tree (delete/rename/duplicate each key, delete each list item, replace each node by each of 14 wrong-kind values, keys turned into bad paths/unknown prefixes, 12 whole-document specials) and of the data JSON tree (14 replacements at every JSON pointer, delete/rename each key, each key turned into each JSON-LD keyword, delete each item, 24 whole-document specials); bound 2 (thorough) = every pair (profile mutation, data mutation) for 2 seeds; raw = every string of length <=2 (quick) / <=3 (thorough) over the YAML and JSON structural alphabets as profile and as data. Entry points Validate, ValidateWithConfiguration, CompileProfile, ValidateCompiled, ValidateCompiledWithConfiguration, with and without an event channel. Oracle: no panic, returns within the watchdog, exactly one of report/error; valid JSON-LD with no nodes (decided by calling json-gold directly) yields conforms:true. Non-trivial = mutant that is still well-formed YAML/JSON (reaches past the text parser); distinct by text.",
+		Rule:        "deviation-bounded: 6 seed (profile, data) pairs; bound 1 = every single structured mutation of the profile YAML tree (delete/rename/duplicate each key, delete each list item, replace each node by each of 14 wrong-kind values, keys turned into bad paths/unknown prefixes, 12 whole-document specials) and of the data JSON tree (14 replacements at every JSON pointer, delete/rename each key, each key turned into each JSON-LD keyword, delete each item, 24 whole-document specials); bound 2 (thorough) = every pair (profile mutation, data mutation) for 2 seeds; raw = every string of length <=2 (quick) / <=3 (thorough) over the YAML and JSON structural alphabets as profile and as data. Entry points Validate, ValidateWithConfiguration, CompileProfile, ValidateCompiled, ValidateCompiledWithConfiguration, with and without an event channel. Oracle: no panic, returns within the watchdog, exactly one of report/error; valid JSON-LD with no nodes (decided by calling json-gold directly) yields conforms:true. Non-trivial = mutant that is still well-formed YAML/JSON (reaches past the text parser); distinct by text.",
 		Assumptions: []string{"'never blocks' is decided by a 90 s per-case watchdog (typical case < 50 ms); a hang would be re-run before being reported"},
 	}, c17Gen, c17Run)
 }
